@@ -495,10 +495,10 @@ AlphaOf(id) ==
   CASE id = "exec" -> AlphaExec [] id = "sdl" -> AlphaSdl [] id = "vardefs" -> AlphaVarDefs [] id = "fielddef" -> AlphaFieldDef
     [] id = "value" -> AlphaValue [] id = "sel" -> AlphaSel
 RunsM        == {<<"exec", "Doc", 6, 2>>, <<"sdl", "SDoc", 5, 2>>, <<"vardefs", "VarDefsOpt", 8, 0>>, <<"value", "Value", 4, 0>>}
-RunsQuick    == {<<"exec", "Doc", 8, 2>>, <<"sdl", "SDoc", 6, 2>>, <<"vardefs", "VarDefsOpt", 11, 0>>, <<"fielddef", "FieldDef", 9, 0>>,
-                 <<"value", "Value", 5, 0>>, <<"sel", "Selection", 7, 0>>}
-RunsThorough == {<<"exec", "Doc", 9, 2>>, <<"sdl", "SDoc", 7, 2>>, <<"vardefs", "VarDefsOpt", 13, 0>>, <<"fielddef", "FieldDef", 11, 0>>,
+RunsQuick    == {<<"exec", "Doc", 8, 2>>, <<"sdl", "SDoc", 7, 2>>, <<"vardefs", "VarDefsOpt", 12, 0>>, <<"fielddef", "FieldDef", 10, 0>>,
                  <<"value", "Value", 6, 0>>, <<"sel", "Selection", 8, 0>>}
+RunsThorough == {<<"exec", "Doc", 10, 2>>, <<"sdl", "SDoc", 8, 2>>, <<"vardefs", "VarDefsOpt", 14, 0>>, <<"fielddef", "FieldDef", 12, 0>>,
+                 <<"value", "Value", 6, 0>>, <<"sel", "Selection", 9, 0>>}
 
 --------------------------------------------------------------------------------
 (* State machine (modes M and G).                                              *)
@@ -570,6 +570,7 @@ DevsAccounted == LET i == Parse(toks, run[2], {}) d == Parse(toks, run[2], AllDe
 DefsSplit == Complete /\ run[2] \in {"Doc", "SDoc"} => Len(Defs(ast)) >= 1 /\ ast[1][1] = "def"
 
 \* mode G: print every complete document once
-GEmit == Complete => PrintT(<<"REPLAY", run[1], JoinStr([i \in 1..Len(toks) |-> toks[i].k \o ":" \o toks[i].s], 1, "")>>)
+\* (a bare string: TLC's pretty printer wraps long tuples over several lines)
+GEmit == Complete => PrintT("REPLAY|" \o run[1] \o "|" \o JoinStr([i \in 1..Len(toks) |-> toks[i].k \o ":" \o toks[i].s], 1, ""))
 
 =============================================================================
